@@ -511,7 +511,20 @@ func spanFacts(pz *packages.Package) string {
 					case *ast.ForStmt:
 						if x.Cond != nil {
 							t := exprStr(pz.Fset, x.Cond)
-							if interesting(t) || strings.Contains(t, ".forward") || strings.Contains(t, "limit") {
+							if x.Init != nil || x.Post != nil {
+								// a counting loop over levels: the whole header
+								h := ""
+								if as, ok := x.Init.(*ast.AssignStmt); ok {
+									h = exprStr(pz.Fset, as.Lhs[0]) + " " + as.Tok.String() + " " + exprStr(pz.Fset, as.Rhs[0])
+								}
+								h += "; " + t + "; "
+								if id, ok := x.Post.(*ast.IncDecStmt); ok {
+									h += exprStr(pz.Fset, id.X) + id.Tok.String()
+								}
+								if strings.Contains(h, "level") {
+									add("for", h)
+								}
+							} else if interesting(t) || strings.Contains(t, ".forward") || strings.Contains(t, "limit") {
 								add("while", t)
 							}
 						}
